@@ -108,6 +108,7 @@ var hostileTokens = [][]byte{
 var hostileBytes = []byte("ab%+&=;# /?.:@\x00\xff\r\n2Bz~-_*")
 
 func genC17(tier string, rng *Rng) {
+	genC17uri(tier, rng)
 	maxLen := 3
 	nRand := 20000
 	if tier == "thorough" {
